@@ -26,7 +26,34 @@ def _is_mine(c):
     return "strays" in case
 
 
+ORPHAN = ("live member", "member(s) were alive", "member(s) are alive", "member(s) alive", "were still alive")
+
+
+def _is_conc(c):
+    import json
+    try:
+        rp = json.load(open(c.replay))
+    except Exception:
+        return False
+    return str(rp.get("engine", "")).startswith("app-startstop")
+
+
+def _startstop(c, replay=None):
+    """stop requests, member deaths and failing members DURING application.start (the goroutine inside ApplicationStart
+    parked at the spawn loop): afterwards no member of a stopped / stopping application is left alive (the closure part
+    of the concurrent scenarios of C17)"""
+    args = ["conc", "-replay", replay] if replay else ["conc", "-n", "60" if c.tier == "quick" else "1500"]
+    out = c.harness("app", args, timeout=900)
+    if out:
+        out["monitor"] = [m for m in (out.get("monitor") or []) if any(k in m["what"] for k in ORPHAN) and not m.get("tags")]
+        c.monitor("app-startstop", out)
+
+
 def run(c):
+    if c.replay and _is_conc(c):
+        c.proofs("theories/Properties/C10app.v", clean=False)
+        _startstop(c, replay=c.replay)
+        return
     c.proofs("theories/Properties/C10app.v", clean=(c.tier == "thorough"))
     if not _is_mine(c):
         return
@@ -40,6 +67,8 @@ def run(c):
     out = c.harness("app", args, timeout=900)
     if out:
         c.monitor("app-node", out)
+    if not c.replay:
+        _startstop(c)
     if c.broken and not c.violations and not c.replay:
         keep = list(c.broken)
         out = c.harness("app", ["node", "-n", str(n * 6)] + (["-known", ",".join(kt)] if kt else []),
